@@ -12,7 +12,7 @@ every small model (the term is this module's own IR, not repository code).
 import itertools
 
 from .program import ClassInfo, Inconclusive
-from .values import (V, Const, Sym, CRef, FRef, Bound, BoundB, Obj, Tup, App,
+from .values import (FoldInfo, V, Const, Sym, CRef, FRef, Bound, BoundB, Obj, Tup, App,
                      New, Coll, Part, Raise)
 from .interp import Hooks
 
@@ -74,6 +74,8 @@ class GraphHooks(Hooks):
             return [(path, App('edges', sg))]
         if name == 'sources' and not a:
             return [(path, App('sources', sg))]
+        if name == 'labelling_function' and not a:
+            return [(path, App('labeldict', sg))]
         if name == 'labels':
             if a and a[0] != Const(None):
                 return [(path, App('labels', sg, a[0]))]
@@ -251,7 +253,16 @@ class Evaluator(object):
     def ev_Tup(self, v):
         return tuple(self.ev(x) for x in v.items)
 
+    fold_state = None
+
     def ev_Coll(self, v):
+        if self.fold_state is not None and v.oid in self.fold_state:
+            cur = self.fold_state[v.oid]
+            if isinstance(cur, dict):
+                return dict(cur)
+            return frozenset(cur) if v.kind == 'set' else tuple(cur)
+        if isinstance(v.havoc, FoldInfo):
+            return self.eval_fold(v.havoc)[v.oid]
         if v.havoc:
             raise NotEvaluable('container with removals')
         if v.kind == 'dict':
@@ -263,6 +274,95 @@ class Evaluator(object):
         if v.kind == 'set':
             return frozenset(items)
         return tuple(items)
+
+    def eval_fold(self, fi):
+        cache = getattr(self, '_fold_cache', None)
+        if cache is None:
+            cache = self._fold_cache = {}
+        if id(fi) in cache:
+            return cache[id(fi)]
+        gens_sig = None
+        for (seq, oid, p) in fi.steps:
+            g = tuple(p.gens)
+            if gens_sig is None:
+                gens_sig = g
+            elif g != gens_sig:
+                raise NotEvaluable('stateful loop with steps at different '
+                                   'nesting depths')
+            if any(v is None for (v, _) in g):
+                raise NotEvaluable('stateful while loop')
+        results = []
+        for order in ('asc', 'desc'):
+            state = {}
+            for oid, (kind, eparts) in fi.entry.items():
+                if kind == 'dict':
+                    state[oid] = dict(self.parts(eparts, True))
+                else:
+                    state[oid] = list(self.parts(eparts, False))
+            saved = self.fold_state
+            self.fold_state = state
+            try:
+                self._fold_iter(fi, gens_sig or (), 0, order, state)
+            finally:
+                self.fold_state = saved
+            res = {}
+            for oid, (kind, _) in fi.entry.items():
+                if kind == 'dict':
+                    res[oid] = dict(state[oid])
+                elif kind == 'set':
+                    res[oid] = frozenset(state[oid])
+                else:
+                    res[oid] = tuple(state[oid])
+            results.append(res)
+        a, b = results
+        same = all(_freeze(a[o]) == (_freeze(b[o]) if fi.entry[o][0] != 'list'
+                                    else _freeze(a[o])) for o in a) and \
+            all(frozenset(map(_freeze, a[o])) == frozenset(map(_freeze, b[o]))
+                for o in a if fi.entry[o][0] == 'list')
+        if not same:
+            raise GraphError('the result of a loop depends on the iteration '
+                             'order of a set')
+        cache[id(fi)] = a
+        return a
+
+    def _fold_iter(self, fi, gens, gi, order, state):
+        if gi == len(gens):
+            for (seq, oid, p) in fi.steps:
+                ok = True
+                for (c, pol) in p.conds:
+                    if self.is_marker(c):
+                        ok = False
+                        break
+                    if bool(self.ev(c)) != pol:
+                        ok = False
+                        break
+                if not ok:
+                    continue
+                kind = fi.entry[oid][0]
+                if p.kind == 'spread':
+                    items = list(self.ev(p.val))
+                else:
+                    items = [self.ev(p.val)]
+                for it in items:
+                    if kind == 'dict':
+                        state[oid][self.ev(p.key)] = it
+                    elif kind == 'set':
+                        if it not in state[oid]:
+                            state[oid].append(it)
+                    else:
+                        state[oid].append(it)
+            return
+        var, it = gens[gi]
+        coll = self.ev(it)
+        if isinstance(coll, dict):
+            coll = list(coll.keys())
+        coll = sorted(coll, key=repr, reverse=(order == 'desc'))
+        for e in coll:
+            self.env[var] = e
+            try:
+                self._fold_iter(fi, gens, gi + 1, order, state)
+            finally:
+                del self.env[var]
 
     def parts(self, parts, isdict):
         for p in parts:
@@ -465,6 +565,18 @@ class Evaluator(object):
                 '*': lambda: a * b, '&': lambda: a & b,
                 '|': lambda: a | b, '^': lambda: a ^ b}[op.v]()
 
+    def op_max(self, *a):
+        vals = [self.ev(x) for x in a]
+        if len(vals) == 1:
+            return max(vals[0])
+        return max(vals)
+
+    def op_min(self, *a):
+        vals = [self.ev(x) for x in a]
+        if len(vals) == 1:
+            return min(vals[0])
+        return min(vals)
+
     def op_sum(self, a):
         return sum(self.ev(a))
 
@@ -571,6 +683,11 @@ class Evaluator(object):
         if s not in g.nodes:
             raise GraphError('labels of a non-state %r' % (s,))
         return self.env['$labels'][s]
+
+    def op_labeldict(self, g):
+        # the labelling dictionary may carry keys that are not states
+        # (replace_labelling_function keeps them)
+        return dict(self.env.get('$labeldict', self.env['$labels']))
 
     def op_alllabels(self, g):
         r = set()
